@@ -8,9 +8,9 @@ cp $wt/seed/patch.diff $wt/seed/demo.py $wt/seed/meta.json $dst/ 2>/dev/null
 cd $wt
 echo "== tests with change"; PYTHONPATH=$wt/src /venv/bin/python -m pytest -q -p no:cacheprovider --timeout=900 -n 8 2>&1 | tail -1
 echo "== demo with change";  (cd /var/tmp && PYTHONPATH=$wt/src /venv/bin/python $dst/demo.py >/var/tmp/demo.out 2>&1; echo "exit $?"; grep -v "^[IW][0-9]" /var/tmp/demo.out | tail -3)
-git stash -q
+git apply -R $dst/patch.diff
 echo "== demo without change"; (cd /var/tmp && PYTHONPATH=$wt/src /venv/bin/python $dst/demo.py >/var/tmp/demo.out 2>&1; echo "exit $?")
-git stash pop -q
+git apply $dst/patch.diff
 cd /verif
 git -C /repo apply $dst/patch.diff || { echo "PATCH DOES NOT APPLY to /repo"; exit 3; }
 for c in ${checks//,/ }; do
